@@ -47,7 +47,7 @@ def run(ck):
     ck.trusted += ["harness/c16.py; KTHierarchy objects for (a),(b) are created with object.__new__ and filled by the class's own methods",
                    "hand model QV/Model/C16.lean validated on generated inputs only",
                    "convergence with depth and the analytic g(t) comparison are measured, not proved"]
-    ck.prove(PROPS, extra_modules=["QV.Drive.C16"])
+    ck.prove(PROPS, extra_modules=["QV.Drive.C16"], also=["QV.Props.C16Dyn", "QV.Props.C16Herm"])
     lines, impl, tol = [], [], []
     # ---- (a) tables ------------------------------------------------------------------------
     combos = [(n, d) for n in range(1, 6) for d in range(0, 8) if math.comb(n + d, d) <= ck.n(130, 800)]
